@@ -62,47 +62,29 @@ def register():
     return e['session']
 
 
-def do_connected(large, t_o_id, serial, vendor, oserial, rpi, size, seq, a, i, n, v):
-    """Register, Forward Open (small/large), connected Read Tag, connected Write Tag + Read Tag Fragmented, Forward Close, Unregister"""
-    sim.attribute('A').value[:] = a
+FO_PATH = [{'port': 1, 'link': 0}, {'class': 2}, {'instance': 1}]
+
+
+def open_session(large=False, t_o_id=0x22, serial=3, vendor=4, oserial=5, rpi=1000, size=500):
     sess = register()
-    w = 0x43f4 if not large else ref.ncp(size, True, 0, 2, False, True)
     ncp_ = ref.ncp(size, True, 0, 2, False, large)
-    fo = ref.forward_open(large, 5, 157, 0x11111111, t_o_id, serial, vendor, oserial, 1, rpi, ncp_, rpi, ncp_, 0xa3,
-                          [{'port': 1, 'link': 0}, {'class': 2}, {'instance': 1}])
+    fo = ref.forward_open(large, 5, 157, 0x11111111, t_o_id, serial, vendor, oserial, 1, rpi, ncp_, rpi, ncp_, 0xa3, FO_PATH)
     proceed, rpy = talk(rr(sess, fo, routed=False))
     r = ref.un_reply(un_rr(rpy, sess))
+    return sess, proceed, r
+
+
+def do_forward_open(large, t_o_id, serial, vendor, oserial, rpi, size):
+    """Register, Forward Open (small/large) with symbolic parameters, Forward Close, Unregister"""
+    sess, proceed, r = open_session(large, t_o_id, serial, vendor, oserial, rpi, size)
     ok = proceed and r['service'] == (0xdb if large else 0xd4) and r['status'] == 0
     d = r['data']
     o_t = ref.un_le(d[0:4])
     ok = ok and o_t != 0 and ref.un_le(d[4:8]) == t_o_id and ref.un_le(d[8:10]) == serial and ref.un_le(d[10:12]) == vendor
     ok = ok and ref.un_le(d[12:16]) == oserial and ref.un_le(d[16:20]) == rpi and ref.un_le(d[20:24]) == rpi and d[24:26] == [0, 0] and len(d) == 26
-    ok = ok and (ADDR[0], ADDR[1], o_t) in device.Connection_Manager.forwards            # keyed by (peer, port, O->T connection id)
-    # connected read
-    proceed, rpy = talk(unit(sess, o_t, seq, ref.read_tag([{'symbolic': 'A'}, {'element': i}], n)))
-    r = un_unit(rpy, sess, o_t, seq)
-    valid = n >= 1 and i + n <= N
-    ok = ok and proceed and r['service'] == 0xcc
-    if valid:
-        ok = ok and r['status'] == 0 and r['data'] == [0xc3, 0] + ref.typed(0xc3, a[i:i + n])
-    else:
-        ok = ok and r['status'] == 0xff and r['ext'] == [0x2105] and r['data'] == []
-    # connected write, then fragmented read of everything
-    proceed, rpy = talk(unit(sess, o_t, (seq + 1) % 65536, ref.write_tag([{'symbolic': 'A'}, {'element': i}], 0xc3, [v])))
-    r = un_unit(rpy, sess, o_t, (seq + 1) % 65536)
-    after = list(a)
-    if i < N:
-        after[i] = v
-    ok = ok and r['service'] == 0xcd and (r['status'] == 0) == (i < N)
-    proceed, rpy = talk(unit(sess, o_t, (seq + 2) % 65536, ref.read_frag([{'symbolic': 'A'}], N, 0)))
-    r = un_unit(rpy, sess, o_t, (seq + 2) % 65536)
-    ok = ok and r['service'] == 0xd2 and r['status'] == 0 and r['data'] == [0xc3, 0] + ref.typed(0xc3, after)
-    # unknown tag over the connected session: a CIP error status, session stays up
-    proceed, rpy = talk(unit(sess, o_t, 9, ref.read_tag([{'symbolic': 'nosuch'}], 1)))
-    r = un_unit(rpy, sess, o_t, 9)
-    ok = ok and proceed and r['status'] != 0
+    ok = ok and list(device.Connection_Manager.forwards) == [(ADDR[0], ADDR[1], o_t)]      # keyed by (peer, port, O->T connection id)
     # Forward Close purges the connection; Unregister ends the session without a reply
-    proceed, rpy = talk(rr(sess, ref.forward_close(5, 157, serial, vendor, oserial, [{'port': 1, 'link': 0}, {'class': 2}, {'instance': 1}]), routed=False))
+    proceed, rpy = talk(rr(sess, ref.forward_close(5, 157, serial, vendor, oserial, FO_PATH), routed=False))
     r = ref.un_reply(un_rr(rpy, sess))
     ok = ok and r['service'] == 0xce and r['status'] == 0 and ref.un_le(r['data'][0:2]) == serial and ref.un_le(r['data'][2:4]) == vendor
     ok = ok and ref.un_le(r['data'][4:8]) == oserial and not device.Connection_Manager.forwards
@@ -110,21 +92,63 @@ def do_connected(large, t_o_id, serial, vendor, oserial, rpi, size, seq, a, i, n
     return ok and not proceed and rpy is None
 
 
-AV = ['a%d' % k for k in range(N)]
 for large in (False, True):
-    define(globals(), 'C14', 'connected_session_%s' % ('large' if large else 'small'),
-           ['t_o_id', 'serial', 'vendor', 'oserial', 'rpi', 'size', 'seq'] + AV + ['i', 'n', 'v'],
-           "return do_connected(%r, t_o_id, serial, vendor, oserial, rpi, size, seq, [%s], i, n, v)" % (large, ", ".join(AV)),
+    define(globals(), 'C14', 'forward_open_%s' % ('large' if large else 'small'), ['t_o_id', 'serial', 'vendor', 'oserial', 'rpi', 'size'],
+           "return do_forward_open(%r, t_o_id, serial, vendor, oserial, rpi, size)" % large,
            ['0 <= t_o_id <= 0xFFFFFFFF and 0 <= serial <= 0xFFFF and 0 <= vendor <= 0xFFFF and 0 <= oserial <= 0xFFFFFFFF and 0 <= rpi <= 0xFFFFFFFF',
-            '1 <= size <= %d and 0 <= seq <= 0xFFFF' % (0xFFFF if large else 0x1FF), " and ".join('-32768 <= %s <= 32767' % x for x in AV),
-            '0 <= i <= %d and 0 <= n <= %d and -32768 <= v <= 32767' % (N, N + 1)],
-           timeout=6000, path_timeout=900, drives=DRIVES, stubs=STUBS,
-           symbolic=['Forward Open: T->O connection id, connection serial, vendor, originator serial, RPI, connection size', 'seq: connected sequence count',
-                     'a0..a4: tag contents', 'i, n: read start/count incl. out of range', 'v: written value'],
-           bounds='complete %s Forward Open session encoded by the reference encoder: Register, Forward Open, connected Read Tag (valid or beyond the end), '
-                  'connected Write Tag, connected Read Tag Fragmented, unknown tag, Forward Close, Unregister; every reply decoded by the reference decoder: '
-                  'documented statuses, values of the array model, forwards table keyed by (peer, port, O->T id) and purged on close' % ('large' if large else 'small'),
-           outside='TCP itself; pylogix API (see pylogix_* in the thorough tier)')
+            '1 <= size <= %d' % (0xFFFF if large else 0x1FF)], timeout=3000, path_timeout=600, drives=DRIVES, stubs=STUBS,
+           symbolic=['T->O connection id, connection serial, vendor, originator serial, RPI (32/16 bit full range)', 'connection size 1..%d' % (0xFFFF if large else 0x1FF)],
+           bounds='reference-encoded Register + %s Forward Open with symbolic parameters + Forward Close + Unregister: reply decoded by the reference decoder '
+                  'echoes every parameter, assigns a non-zero O->T id, forwards table keyed by (peer, port, O->T id) and purged on close; Unregister sends '
+                  'nothing' % ('Large' if large else 'Small'), outside='TCP itself')
+
+
+def do_connected_read(large, seq, a, i, n):
+    sim.attribute('A').value[:] = a
+    sess, proceed, r = open_session(large)
+    o_t = ref.un_le(r['data'][0:4])
+    proceed, rpy = talk(unit(sess, o_t, seq, ref.read_tag([{'symbolic': 'A'}, {'element': i}], n)))
+    r = un_unit(rpy, sess, o_t, seq)
+    valid = n >= 1 and i + n <= N
+    ok = proceed and r['service'] == 0xcc
+    if valid:
+        return ok and r['status'] == 0 and r['data'] == [0xc3, 0] + ref.typed(0xc3, a[i:i + n])
+    return ok and r['status'] == 0xff and r['ext'] == [0x2105] and r['data'] == []
+
+
+def do_connected_write(large, seq, a, i, v):
+    sim.attribute('A').value[:] = a
+    sess, proceed, r = open_session(large)
+    o_t = ref.un_le(r['data'][0:4])
+    proceed, rpy = talk(unit(sess, o_t, seq, ref.write_tag([{'symbolic': 'A'}, {'element': i}], 0xc3, [v])))
+    r = un_unit(rpy, sess, o_t, seq)
+    after = list(a)
+    if i < N:
+        after[i] = v
+    ok = r['service'] == 0xcd and (r['status'] == 0) == (i < N)
+    proceed, rpy = talk(unit(sess, o_t, (seq + 1) % 65536, ref.read_frag([{'symbolic': 'A'}], N, 0)))
+    r = un_unit(rpy, sess, o_t, (seq + 1) % 65536)
+    ok = ok and r['service'] == 0xd2 and r['status'] == 0 and r['data'] == [0xc3, 0] + ref.typed(0xc3, after)
+    # unknown tag over the connected session: a CIP error status, the session stays up
+    proceed, rpy = talk(unit(sess, o_t, 9, ref.read_tag([{'symbolic': 'nosuch'}], 1)))
+    r = un_unit(rpy, sess, o_t, 9)
+    return ok and proceed and r['status'] != 0 and r['service'] == 0xcc
+
+
+AV = ['a%d' % k for k in range(N)]
+APRE = " and ".join('-32768 <= %s <= 32767' % x for x in AV)
+for large in (False, True):
+    nm = 'large' if large else 'small'
+    define(globals(), 'C14', 'connected_read_%s' % nm, ['seq'] + AV + ['i', 'n'], "return do_connected_read(%r, seq, [%s], i, n)" % (large, ", ".join(AV)),
+           ['0 <= seq <= 0xFFFF', APRE, '0 <= i <= %d and 0 <= n <= %d' % (N, N + 1)], tier='quick' if not large else 'thorough',
+           timeout=3000, path_timeout=600, drives=DRIVES, stubs=STUBS,
+           bounds='connected (SendUnitData) Read Tag over a %s Forward Open session, reference-encoded: symbolic sequence count, tag contents, start index and '
+                  'count (valid or beyond the end): addressed to the connection, sequence echoed, values of the array model or 0xFF/0x2105' % nm, outside='')
+    define(globals(), 'C14', 'connected_write_%s' % nm, ['seq'] + AV + ['i', 'v'], "return do_connected_write(%r, seq, [%s], i, v)" % (large, ", ".join(AV)),
+           ['0 <= seq <= 0xFFFF', APRE, '0 <= i <= %d and -32768 <= v <= 32767' % N], tier='quick' if large else 'thorough',
+           timeout=3000, path_timeout=600, drives=DRIVES, stubs=STUBS,
+           bounds='connected Write Tag (index inside or at the end of the tag), then connected Read Tag Fragmented of the whole tag and an unknown tag, over a %s '
+                  'Forward Open session' % nm, outside='')
 
 
 def do_unconnected(a, b0, b1, i, n, v, s0):
